@@ -3,6 +3,7 @@ package props
 import (
 	"encoding/json"
 	"fmt"
+	"os"
 	"strings"
 	"sync/atomic"
 	"time"
@@ -303,8 +304,16 @@ func C20() int {
 		Key:        func(j *c20Job) string { return fmt.Sprintf("%d|%d|%s", j.N, j.Cooldown, j.Seq) },
 		Nontrivial: func(j *c20Job) bool { return strings.Contains(j.Seq, "T") && strings.Contains(j.Seq, "F") },
 	}
-	d.Drive()
-	c20KV(rep, budget)
+	only := os.Getenv("VERIF_C20_ONLY") // development aid: run one part
+	if only == "" || only == "alerts" {
+		d.Drive()
+	}
+	if only == "" || only == "kv" {
+		c20KV(rep, budget)
+	}
+	if only == "" || only == "tree" {
+		c20Tree(rep, budget)
+	}
 	return rep.Finish()
 }
 
@@ -313,8 +322,12 @@ func init() {
 	Replayers["C20"] = func(doc json.RawMessage) int {
 		var probe struct {
 			Store string `json:"store"`
+			Tree  bool   `json:"tree"`
 		}
 		_ = json.Unmarshal(doc, &probe)
+		if probe.Tree {
+			return MakeReplayer[c20TreeJob]("C20", "model_checking", serverPool, c20TreeRun)(doc)
+		}
 		if probe.Store != "" {
 			return MakeReplayer[c20KVJob]("C20", "model_checking", serverPool, c20KVRun)(doc)
 		}
